@@ -12,7 +12,7 @@ CLAIMS = {
  "C07": dict(engine="prefixed", design="6/C07", technique="TLC exhaustive model checking of spec/Prefixed.tla (impl-shaped prefix range vs reference window; B=3 and B=256) + replay of every (operation, state) through App's prefixed-storage API + TLC trace validation of random/directed real executions incl. a 65535 x 0xFF namespace",
    text="Exhaustive bounded model checking of the namespacing design in TLA+ (window exactness, disjointness, frame), every explored transition replayed through the public prefixed-storage API of App with raw dump and full view battery compared to TLC's answers, plus TLC validation of recorded real executions with arbitrary byte namespaces.",
    note="Bounded: adversarial path/key sets over bytes 0x00/0x01/0xFF, <= 3 operations exhaustively; the B=3 configuration covers the all-maximal prefix at design level and a directed trace covers it with real bytes. Trusted: TLC, MockStorage."),
- "C09": dict(engine="bank", design="6/C09", technique="TLC exhaustive model checking of spec/Bank.tla (impl-shaped coin-by-coin arithmetic vs declarative per-denomination totals; conservation) + replay of every (operation, state) on a real App with 128-bit scaled amounts + TLC trace validation of random real histories",
+ "C09": dict(engine="bank", design="6/C09", technique="TLC exhaustive model checking of spec/Bank.tla (impl-shaped coin-by-coin arithmetic vs declarative per-denomination totals; conservation) + replay of every (operation, state) on a real App with 128-bit scaled amounts + TLC trace validation of random real histories + the Chain specification (menu funds) for the balances and the Supply query seen by contracts inside transactions",
    text="Exhaustive bounded model checking of the ledger in TLA+ (conservation, exact movement, fail-exactly-when, no-op on failure), every explored transition replayed through App's bank entry points with all three query kinds compared to TLC's state, plus TLC validation of long random histories recorded from the real code.",
    note="Bounded: 3-4 accounts, 2 denominations, coin lists up to 3 coins over small amounts, supply <= Cap exhaustively; amounts scaled linearly up to 2^128-1; random histories (5 accounts, 3 denominations, hundreds of operations) validated by TLC. Trusted: TLC, cosmwasm-std queries."),
 }
@@ -24,27 +24,27 @@ def _chain(pid, what, design):
       note="Bounded by Fuel (contract invocations per transaction), MaxTx and the per-property menus in spec/mc/MC_Chain.tla; contracts are scripted (arbitrary effects/queries/failures, not arbitrary Rust); error texts, gas, msg_responses not compared. Trusted: TLC, cosmwasm-std mocks (MockApi, MockStorage), the harness's protobuf encoder for response data.")
 
 CLAIMS.update({
- "C01": _chain("C01", "Focus: Ok/Err, responses per message, full post-state, raw storage byte-identical after Err.", "6/C01"),
- "C02": _chain("C02", "Focus: what later invocations can read after a caught/uncaught failure, Ok/Err, post-state.", "6/C02"),
+ "C01": _chain("C01", "Focus: Ok/Err, responses per message, full post-state, raw storage byte-identical after Err; the repository's own tests validated as traces against spec/Monitor.tla (a failing entry point leaves the storage digest unchanged).", "6/C01"),
+ "C02": _chain("C02", "Focus: what later invocations can read after a caught/uncaught failure, Ok/Err, post-state; second menu `stake`: staking/distribution messages with their real semantics sent by contracts and rolled back with failing siblings; random programs (with and without real staking) validated by TLC (Trace_Chain).", "6/C02"),
  "C03": _chain("C03", "Focus: exact sequence of entry-point invocations and the id/payload/result of each Reply.", "6/C03"),
  "C04": _chain("C04", "Focus: exact events and data bytes of every response and of every Reply.", "6/C04"),
  "C05": _chain("C05", "Focus: sender, own address, block, funds told and visible balances at every invocation; no invocation on overdraw.", "6/C05"),
  "C08": _chain("C08", "Focus: every contract's storage through four views at every invocation and after the call.", "6/C08"),
- "C10": _chain("C10", "Focus: query battery at every invocation (incl. after caught failures) and query purity/repeatability through App.", "6/C10"),
+ "C10": _chain("C10", "Focus: query battery (balances, supply, contract info, raw storage, delegations and accumulated rewards) at every invocation (incl. after caught failures) and query purity/repeatability through App; the repository's own tests validated as traces against spec/Monitor.tla.", "6/C10"),
  "C11": _chain("C11", "Focus: code ids, CodeInfo, address binding (functional, injective), ContractInfo, serving code.", "6/C11"),
  "C12": _chain("C12", "Focus: Ok/Err of Migrate/UpdateAdmin/ClearAdmin, code id/admin/storage afterwards, serving code.", "6/C12"),
  "C13": _chain("C13", "Focus: Ok/Err for every class string as attribute key / event type, emitted events unchanged, rollback.", "6/C13"),
- "C17": _chain("C17", "Focus: which module was called with which sender and payload, Ok/Err, rollback on module failure.", "6/C17"),
+ "C17": _chain("C17", "Focus: which module was called with which sender and payload, Ok/Err, rollback on module failure; incl. the bank calls made by the real staking module (delegation transfer, payouts of a block update).", "6/C17"),
 })
 
 def _staking(what, design):
     return dict(engine="staking", design=design,
       technique="TLC exhaustive model checking of spec/Staking.tla (exact fixed-point shares/rewards on a time grid; invariants NoPanic, PoolSolvent, StakersConsistent, NoOverPay and action properties StakeMovesExactly, InvalidFails, PayoutTiming, WithdrawExact, SlashExact, SlashKeepsWhole; pre-repair transcriptions rejected) + replay of every (operation, state) on real StakeKeeper/DistributionKeeper comparing all observables after every operation",
       text="Bounded exhaustive model checking of the staking design in TLA+ and exact conformance of the real keepers to it on a grid where the code's 18-digit arithmetic is exact: " + what,
-      note="Bounded: 1-2 delegators, 1-2 validators, amounts and fractions per configuration, up to 7 operations (reduced menu) / 3-4 (full menu); spec -> impl direction only; off-grid rounding is outside the model. Trusted: TLC, cosmwasm-std Decimal, bank keeper.")
+      note="Bounded: 1-2 delegators, 1-2 validators, amounts and fractions per configuration, up to 7 operations (reduced menu) / 3-4 (full menu); spec -> impl for Staking.tla, both directions for the composition in Chain.tla (no slashing there); off-grid rounding is outside the model. Trusted: TLC, cosmwasm-std Decimal, bank keeper.")
 CLAIMS.update({
- "C14": _staking("delegation/undelegation/redelegation accounting, payout timing, no panic; focus on balances, delegations, Ok/Err/panic.", "6/C14"),
- "C15": _staking("pending rewards after every operation, withdrawals paying exactly what is shown to the withdraw address, others unaffected; design-level NoOverPay.", "6/C15"),
+ "C14": _staking("delegation/undelegation/redelegation accounting, payout timing (incl. unbonding period 0 and block updates that do not move time), no panic; focus on balances, delegations, Ok/Err/panic. Extra stages on spec/Chain.tla with the real keepers composed in (menu stake; random mixed histories validated by TLC).", "6/C14"),
+ "C15": _staking("pending rewards after every operation (block times with varying sub-second parts), withdrawals paying exactly what is shown to the withdraw address, others unaffected; design-level NoOverPay. Extra stages on spec/Chain.tla with the real keepers composed in (exact rewards on a second grid; random mixed histories with block updates of 0-17 s validated by TLC).", "6/C15"),
  "C16": _staking("slash effects on delegations, pending unbondings (observed at payout) and accrued rewards, rejection of fractions above one and unknown validators; whole-token results accepted up to dropped sub-token remainders.", "6/C16"),
 })
 
@@ -52,15 +52,15 @@ CLAIMS.update({
  "C18": dict(engine="bech32", design="6/C18",
    technique="BIP-173/350 transcribed in TLA+ (spec/Bech32.tla); TLC evaluates the algebraic properties on an enumerated input set and recomputes every logged call of the real address helpers (trace validation, spec/trace/Trace_Bech32.tla)",
    text="An independent TLA+ transcription of Bech32/Bech32m checked by TLC for round trip, validity and rejection of every single-character substitution / case flip / other variant / other prefix on enumerated inputs, and used as the oracle for thousands of real API calls (humanize, canonicalize, validate, make, Into* conversions) on generated prefixes, byte strings, names and corruptions.",
-   note="SHA-256 uninterpreted (functional/injective on observed names); all-upper-case inputs are a named don't-care; prefixes are lower-case HRPs; BCH error detection exercised, not proved. Trusted: TLC, CommunityModules Bitwise/Json."),
+   note="SHA-256 uninterpreted (functional/injective on observed names); all-upper-case inputs are a named don't-care; prefixes are lower-case HRPs incl. ones made of / ending in the separator character '1'; BCH error detection exercised, not proved. Trusted: TLC, CommunityModules Bitwise/Json."),
  "C19": dict(engine="twin", design="6/C19",
-   technique="TLC enumerates every interleaving of two runs of the same history (spec/Twin.tla over the Chain evaluator, invariant Agree); each schedule executed on two live Apps with byte-identical comparison at equal positions; same schedules in a second process; TLC-enumerated staking histories on two Apps under random interleavings",
+   technique="TLC enumerates every interleaving of two runs of the same history (spec/Twin.tla over the Chain evaluator, invariant Agree); each schedule executed on two live Apps with byte-identical comparison at equal positions of results, storage and of everything every contract invocation is handed (env, info, reply incl. gas_used, readable state); a third App with another Api runs first; same schedules in a second process; TLC-enumerated staking histories on two Apps under random interleavings",
    text="Exhaustive enumeration of interleavings of two independent application instances fed the same history, with the real code required to produce byte-identical results, ids, addresses, checksums and raw storage at equal positions, to agree with the specification's Ok/Err, and to reproduce the same transcripts in a second process.",
    note="Histories fixed in spec/mc/MC_Twin.tla plus enumerated staking histories; absence of hidden inputs observed on two instances / two processes, not proved. Trusted: TLC, std DefaultHasher for digests."),
  "C20": dict(engine="builder", design="6/C20",
-   technique="TLC enumerates every sequence of builder steps up to MaxSteps (spec/Builder.tla: Keeps, OrderIndependent, InitOnce); each replayed on the real AppBuilder / ContractWrapper with tagged components; compile-time sequences from the real defaults",
+   technique="TLC enumerates every sequence of builder steps up to MaxSteps (spec/Builder.tla: Keeps, OrderIndependent, InitOnce); each replayed on the real AppBuilder / ContractWrapper with tagged components and boundary values (block of height 0 / time 0 / empty chain id, storage holding data); wrappers with a supplied checksum also stored and duplicated; compile-time sequences from the real defaults",
    text="Exhaustive enumeration of step sequences (subsets, permutations, repetitions) of both builders with the real builders required to end up with exactly the supplied components, block, storage, entry points and checksum, and to run the initialisation function once against the supplied storage.",
-   note="MaxSteps 3 (quick) / 5 (thorough); slots are normalised to tagged harness types first, real defaults covered by five fixed sequences. Trusted: TLC, Rust type system for generically typed slots."),
+   note="MaxSteps 3 (quick) / 5 (thorough); slots are normalised to tagged harness types first, real defaults covered by seven fixed sequences. Trusted: TLC, Rust type system for generically typed slots."),
 })
 
 def main():
